@@ -121,6 +121,14 @@ def workload(tier, seed, scale=1.0):
                           ('b_pow2', v * w, 1 << (64 * (n - 1))), ('b_allones', v * w, (1 << (64 * n)) - 1)):
             if b > 0 and a >= 0:
                 add(cmds, a, b, fam, rnd, signs=[(1, 1), (1, -1), (-1, 1), (-1, -1)])
+    # special-value pool pairs (type boundaries, word boundaries, exact powers)
+    from ..core import special_values
+    pool = special_values()
+    for a in pool:
+        for b in (pool if not quick else pool[::4] + [a, a + 1]):
+            if b == 0 or (scale < 1.0 and rnd.random() > scale):
+                continue
+            add(cmds, a, b, 'pool', rnd, signs=[(1, 1), (-1, 1), (1, -1), (-1, -1)] if not quick else None)
     # zero divisor: every API must panic, every checked_* must return None - across operand sizes
     for n in (0, 1, 2, 5, 40):
         a = rand_digits(rnd, n, 0)
